@@ -42,10 +42,10 @@ Proof.
         snd (match cut_at 63 path with Some (a, b) => (a, b) | None => (path, qq) end), ff)).
   { intros path qq ff. rewrite split_max1_aux, cut_at_has.
     destruct (cut_at 63 path) as [[a1 b1]|]; reflexivity. }
-  destruct a; cbn [andb].
-  - rewrite split_max1_aux, cut_at_has.
-    destruct (cut_at 35 p) as [[a1 b1]|]; cbn [rev app fst snd]; apply Q.
-  - cbn [fst snd]. apply Q.
+  (* robust to the order of the two conjuncts of `allow_fragments and '#' in path` *)
+  rewrite (cut_at_has 35 p).
+  destruct a; destruct (cut_at 35 p) as [[a1 b1]|] eqn:E35; cbn [andb fst snd]; try apply Q.
+  rewrite split_max1_aux, E35. cbn [rev app]. apply Q.
 Qed.
 
 (* ================================================================== parse_host_port *)
@@ -435,3 +435,12 @@ Example ex_params :
   (params_collapse ex_pairs = [(lit "a", lit "3"); (lit "b", lit "x")]) /\
   (params_all ex_pairs = [(lit "a", Many [lit "1"; lit "2"; lit "3"]); (lit "b", One (lit "x"))]).
 Proof. split; vm_compute; reflexivity. Qed.
+
+Example ex_plain_hyps :
+  has_char 58 (lit "server01") = false /\ has_char 91 (lit "server01") = false /\ has_char 93 (lit "server01") = false /\
+  lit "server01" <> [].
+Proof. repeat split; try reflexivity. discriminate. Qed.
+Example ex_ipv6_hyp : has_char 93 (lit "fe80::1%eth0") = false.
+Proof. reflexivity. Qed.
+Example ex_params_contract : bempty (lit "a=1") = true -> [(lit "a", lit "1")] = @nil (str * str).
+Proof. discriminate. Qed.
